@@ -117,7 +117,12 @@ class DirHandler(BaseHandler):
         if time.time() - statval[stat.ST_MTIME] < self.cachetime:
             try:
                 with self.vfs.open(self.cachename, "rb") as fp:
-                    self.fileentries = pickle.load(fp)
+                    cachedselector, fileentries = pickle.load(fp)
+                if cachedselector != self.selector:
+                    # Written for another name of this directory (a symlink
+                    # to it): its entries carry that name's selectors.
+                    return False
+                self.fileentries = fileentries
             except Exception:
                 # A cut-off or otherwise unreadable cache file (its writer was
                 # killed, the disk was full, or another request is rewriting it
@@ -135,6 +140,6 @@ class DirHandler(BaseHandler):
             return
         try:
             with self.vfs.open(self.cachename, "wb") as fp:
-                pickle.dump(self.fileentries, fp, 1)
+                pickle.dump((self.selector, self.fileentries), fp, 1)
         except IOError:
             pass
